@@ -63,6 +63,9 @@ pub struct Case {
   pub stall_every: u8,
   pub stall_ms: u8,
   pub motifs: Vec<Motif>,
+  /// 0 = NULL, 1 = CURVE, 2 = PLAIN (tcp / ipc only; inproc has no handshake)
+  #[serde(default)]
+  pub mech: u8,
 }
 
 fn motif_strategy(huge: bool) -> impl Strategy<Value = Motif> {
@@ -91,9 +94,9 @@ fn case_strategy(huge: bool) -> impl Strategy<Value = Case> {
     (any::<bool>(), any::<bool>()),
     prop::sample::select(vec![FirstSend::Immediately, FirstSend::AfterHandshake]),
     (prop::sample::select(vec![0u8, 0, 3, 7, 40]), prop::sample::select(vec![1u8, 5, 30])),
-    prop::collection::vec(motif_strategy(huge), 3..14),
+    (prop::collection::vec(motif_strategy(huge), 3..14), prop::sample::select(vec![0u8, 0, 0, 0, 1, 1, 2])),
   )
-    .prop_map(|(pair, transport, rt, (sndhwm, rcvhwm), (sndbatch_count, sndbatch_bytes, rcvbatch_count), (throttle, cork), first_send, (stall_every, stall_ms), motifs)| Case {
+    .prop_map(|(pair, transport, rt, (sndhwm, rcvhwm), (sndbatch_count, sndbatch_bytes, rcvbatch_count), (throttle, cork), first_send, (stall_every, stall_ms), (motifs, mech))| Case {
       pair,
       // DEALER-DEALER is refused over inproc (C05 known finding): not a connected pair there
       transport: if pair == Pair::DealerDealer && transport == Transport::Inproc { Transport::Ipc } else { transport },
@@ -109,6 +112,7 @@ fn case_strategy(huge: bool) -> impl Strategy<Value = Case> {
       stall_every,
       stall_ms,
       motifs,
+      mech: if transport == Transport::Inproc && pair != Pair::DealerDealer { 0 } else { mech },
     })
 }
 
@@ -223,6 +227,19 @@ async fn body(c: &Case) -> L2 {
     stack::i32opt(opt::ADAPTIVE_THROTTLE, c.throttle as i32),
     stack::i32opt(opt::TCP_CORK, c.cork as i32),
   ];
+  let mut sopts = sopts;
+  if c.mech != 0 && c.transport != Transport::Inproc {
+    use crate::pair::{EndSpec, Mech};
+    let m = if c.mech == 1 { Mech::Curve } else { Mech::Plain };
+    let mut srv = EndSpec::new(rtype, true, m);
+    let mut cli = EndSpec::new(stype, false, m);
+    if c.mech == 2 {
+      srv.plain = Some(("u".into(), "p".into()));
+      cli.plain = Some(("u".into(), "p".into()));
+    }
+    ropts.extend(srv.options());
+    sopts.extend(cli.options());
+  }
   if c.pair == Pair::RouterDealer {
     ropts.push((opt::ROUTING_ID, b"peer".to_vec()));
   }
@@ -427,6 +444,8 @@ pub fn run(run: &mut Run) {
     rec.label_if(c.first_send == FirstSend::Immediately, "first_send_during_connect");
     rec.label_if(c.motifs.iter().any(|m| matches!(m, Motif::Overtake)), "overtake_motif");
     rec.label_if(c.stall_every > 0, "stalling_receiver");
+    rec.label_if(c.mech == 1, "curve");
+    rec.label_if(c.mech == 2, "plain");
     let r = run_l2(c.rt, Duration::from_secs(120), body(c));
     let r = match r {
       L2::Inconclusive(w) => L2::Inconclusive(format!("{} :: {}", w, serde_json::to_string(c).unwrap_or_default())),
